@@ -188,10 +188,10 @@ def terminal_history(ctx, n):
 
 
 @harness("C06.threads", quick=[dict(L=L, nthreads=2, witness=None) for L in (0, 1, 2, 4)] + [dict(L=0, nthreads=2, witness=i) for i in range(len(WITNESS_NAMES))]
-         + [dict(L=1, nthreads=3, witness=None, gone=g) for g in ("open-ENOENT", "open-ESRCH", "read-ESRCH")],
+         + [dict(L=1, nthreads=3, witness=None, gone=g) for g in ("open-ENOENT", "open-ESRCH", "read-ESRCH")] + [dict(L=1, nthreads=2, witness=None, oneshot=True)],
          thorough=[dict(L=L, nthreads=3, witness=None) for L in range(16)] + [dict(L=0, nthreads=3, witness=i) for i in range(len(WITNESS_NAMES))]
-         + [dict(L=L, nthreads=n, witness=None, gone=g) for g in ("open-ENOENT", "open-ESRCH", "read-ESRCH") for L in (0, 2) for n in (2, 3, 4)])
-def threads(ctx, L, nthreads, witness, gone=None):
+         + [dict(L=L, nthreads=n, witness=None, gone=g) for g in ("open-ENOENT", "open-ESRCH", "read-ESRCH") for L in (0, 2) for n in (2, 3, 4)] + [dict(L=L, nthreads=3, witness=None, oneshot=True) for L in (0, 3)])
+def threads(ctx, L, nthreads, witness, gone=None, oneshot=False):
     """threads(): (tid, utime/CLK, stime/CLK) in tid order, whatever the thread names contain.
     gone: one thread other than the main one (which one is symbolic) exits while the task list is being read -- its stat file
     cannot be opened any more, or opens and then fails to read with ESRCH; the other threads are still reported exactly"""
@@ -212,7 +212,15 @@ def threads(ctx, L, nthreads, witness, gone=None):
         path = f"/proc/77/task/{victim}/stat"
         k.files[path] = simk.fails_on_read(k, path) if gone == "read-ESRCH" else simk.oserr(_errno.ENOENT if gone == "open-ENOENT" else _errno.ESRCH, path)
     with k.installed():
-        th = ctx.guard("thread-exit-tolerated" if gone else "named-thread-times", psutil.Process(77).threads)
+        p77 = psutil.Process(77)
+        if oneshot:
+            # inside a oneshot() block that has already parsed /proc/77/stat (whose utime/stime are the PROCESS totals, different
+            # numbers from the main thread's own record under task/77/stat)
+            with p77.oneshot():
+                p77.name(), p77.cpu_times()
+                th = ctx.guard("named-thread-times", p77.threads)
+        else:
+            th = ctx.guard("thread-exit-tolerated" if gone else "named-thread-times", p77.threads)
     ctx.observe("threads", [tuple(x) for x in th])
     if gone:
         tids = [t for t in tids if t != victim]
